@@ -7,7 +7,7 @@ CONSTANTS
   DomSw <- SwDom
   MaxComps = 2
   DomInvalid <- InvalidDom
-INVARIANTS ValidIffGetters ValidThenMandatoryGettersOK ErrorsClassified
-PROPERTIES SetterAgrees SetterStores AtomicOnFailure OnlyTargetChanges ReadOpsPure P1Exclusive
+INVARIANTS ValidIffGetters ValidThenMandatoryGettersOK
+PROPERTIES SetterAgrees SetterStores AtomicOnFailure OnlyTargetChanges ReadOpsPure P1Exclusive ErrorsClassifiedStep
 VIEW View
 CHECK_DEADLOCK FALSE
